@@ -96,18 +96,96 @@ theorem fresh_view_along_suite_history (s : Suite) (os : List SOp) (h : L.AllAli
   intro t _
   exact (reload_spec t).1
 
+/-! ## F61 (repaired by b478bc1): a relation file whose last line lacks the final newline -/
+
+/-- "Commit makes the stored relation equal to that list" WITHOUT any newline hypothesis: on aligned tables the
+repaired commit gives the same table, the same stored relation and the same physical form whether or not the file
+ended in a newline (it then rewrites instead of appending) — so `commit_spec`, `commit_idempotent`, `commit_total`,
+`commit_keeps_form`, `commit_stores_the_list`, `commit_form_on_disk` hold for every such file; likewise for the
+whole suite. -/
+theorem commit_newline_irrelevant (t : T) (nl : Bool) (h : Aligned t) : commitNl t nl = commit t :=
+  L.commitNl_eq t nl h
+
+theorem commitAll_newline_irrelevant (s : Suite) (nls : List Bool) (h : L.AllAligned s) :
+    commitAllNl s nls = commitAll s := L.commitAllNl_eq s h nls
+
+/-- the decision itself: pending appends on a plain file that does NOT end in a newline take the rewrite branch
+(what the code before b478bc1 did not: it appended, gluing two records), and the stored relation is the list. -/
+theorem commit_without_final_newline_rewrites (t : T) (h : Aligned t) (htx : inTransaction t = true) :
+    commitNl t false = .ok (sync { t with file := abs t, gz := t.gz && !(abs t).isEmpty }) := by
+  unfold commitNl
+  rw [if_pos htx]
+  simp
+
+/-! ## two TestSuite objects on one directory (round 7) -/
+
+/-- RELOAD AFTER A FOREIGN COMMIT: suite B (all tables aligned, any pending edits) commits; suite A — in ANY state:
+tables loaded or not, with or without pending changes of its own, even misaligned — then reloads.  A shows, for
+every table, exactly the list B showed when it committed; A is aligned again and not in a transaction. -/
+theorem reload_after_foreign_commit (a b b' : Suite) (hb : L.AllAligned b) (hc : commitAll b = (b', none))
+    (hl : a.length = b.length) :
+    (reloadAll (adoptFiles b' a)).map abs = b.map abs
+    ∧ L.AllAligned (reloadAll (adoptFiles b' a)) ∧ inTransactionS (reloadAll (adoptFiles b' a)) = false := by
+  have hlen : b'.length = b.length := by
+    have := congrArg List.length (L.commitAll_abs b b' hb hc).2
+    simpa using this
+  refine ⟨?_, (L.reloadAll_clean _).1, (L.reloadAll_clean _).2⟩
+  rw [L.reloadAll_abs, L.adoptFiles_files b' a (by omega), L.commitAll_files b b' hb hc]
+
+/-- … and a TestSuite freshly opened on the directory after B's commit shows the same lists. -/
+theorem fresh_suite_after_foreign_commit (b b' : Suite) (hb : L.AllAligned b) (hc : commitAll b = (b', none)) :
+    (freshSuite b').map abs = b.map abs ∧ L.AllAligned (freshSuite b') ∧ inTransactionS (freshSuite b') = false := by
+  refine ⟨?_, (L.reloadAll_clean _).1, (L.reloadAll_clean _).2⟩
+  unfold freshSuite
+  rw [L.reloadAll_abs, L.commitAll_files b b' hb hc]
+
+/-! ## the "placeholder beyond the end of the file" branches (`_getitem`: 'could not retrieve row',
+`_enum_rows`: `else: continue`) are dead in every single-suite history -/
+
+/-- from every reachable state (`aligned_fresh`, `run_aligned`: every operation preserves `Aligned`), along
+EVERY history: no index makes `table[i]` raise ITSDBError and the enumeration skips no position. -/
+theorem placeholder_branch_dead (t : T) (ops : List Op) (h : Aligned t) :
+    (∀ i, getItem (run t ops).1 i ≠ .error .itsdbError)
+    ∧ (∀ x ∈ resolve (run t ops).1.rows (run t ops).1.file, x ≠ none) :=
+  L.aligned_no_dangling _ (run_aligned t ops h)
+
+/-- … and the only way into them is the one the property excludes: ANOTHER suite shrinks the relation and this
+suite does not reload.  (A loaded 3 stored rows, B committed 1 row: A still has length 3, shows 1 row,
+`A[2]` is the ITSDBError; after `reload` A is the list again by `reload_after_foreign_commit`.) -/
+theorem stale_suite_reaches_dead_branch :
+    (L.staleWitness.map len = [3]) ∧ (L.staleWitness.map (fun t => (abs t).length) = [1])
+    ∧ (L.staleWitness.map (fun t => getItem t 2) = [.error .itsdbError])
+    ∧ ((reloadAll L.staleWitness).map abs = [[[1]]]) := by
+  refine ⟨by decide, by decide, by rfl, by decide⟩
+
 /-! ## "batch processing …": the processor is called once per row of the list the input table shows -/
 
 /-- for every schema, suite and `selector=` (explicit or the task default): `process` calls the processor
 exactly once per row of the list the input relation SHOWS once the affected relations have been cleared
 (pending rows included; nothing, if the input relation is itself an affected one), in list order, with that row's cell in the input column as datum and that row's key columns as `keys`. -/
-theorem process_calls_once_in_order (sch : Schema) (s : Suite) (sel : Option (String × String))
-    (cs : List (Nat × Dict)) (h : processCalls sch s sel = .ok cs) :
-    ∃ inFields items k, processInput sch (clearAt s (affectedIdx sch)) sel = .ok (inFields, items)
-      ∧ items = L.content (clearAt s (affectedIdx sch)) k
+theorem process_calls_once_in_order (sch : Schema) (s : Suite) (sel : Option (String × String)) (src : Option Suite)
+    (cs : List (Nat × Dict)) (h : processCalls sch s sel src = .ok cs) :
+    ∃ inFields items k,
+      processInput sch (match src with | none => clearAt s (affectedIdx sch) | some q => q) sel = .ok (inFields, items)
+      ∧ items = L.content (match src with | none => clearAt s (affectedIdx sch) | some q => q) k
       ∧ cs.length = items.length
       ∧ ∀ (i : Nat) (r : Row), items[i]? = some r → ∃ c, cs[i]? = some (c, keysOf inFields r) :=
-  L.processCalls_spec sch s sel cs h
+  L.processCalls_spec sch s sel src cs h
+
+/-- `process(source=…)` / `FieldMapper._i_id_map` (round 7): an input relation that has `i-id` among its keys is
+taken as it is; for one keyed by `parse-id` but not `i-id` (result rows of another profile: the transfer and
+generate tasks) the `i-id` the mapper uses for an input row is the i-id the source's parse relation lists for
+that row's parse-id — the LAST such row, as in a dict — and -1 if it lists none. -/
+theorem source_i_id_resolution (m : List (Nat × Nat)) (inFields : List FieldS) :
+    (hasKey inFields "i-id" = true → ∀ items, augmentInput m inFields items = (inFields, items))
+    ∧ (hasKey inFields "i-id" = false → hasKey inFields "parse-id" = true →
+        ∀ r : Row, r.length = inFields.length → ∃ f' r', augmentInput m inFields [r] = (f', [r'])
+          ∧ iidCellOf (keysOf f' r')
+              = (mapLookup m (r.getD (inFields.findIdx (fun f => f.isKey && f.name == "parse-id")) cNone)).getD
+                  (encInt (-1))) := by
+  refine ⟨fun h items => by simp [augmentInput, h], fun h1 h2 r hl => L.augment_iid m inFields r hl h1 h2⟩
+
+example : mapLookup [(5, 9), (7, 1), (5, 13)] 5 = some 13 ∧ mapLookup [(5, 9)] 6 = none := by decide
 
 /-- ERROR PATH of the option plumbing: a `selector` naming a relation that is not in the schema, or a
 column that is not a field of the relation, makes `process` raise ITSDBError BEFORE anything is cleared or
@@ -116,8 +194,8 @@ theorem process_bad_selector_changes_nothing (sch : Schema) (s : Suite) (b : Int
     (tb col : String)
     (hbad : tableIndex sch tb = none
       ∨ ∃ ts, sch.find? (fun t => t.name == tb) = some ts ∧ ts.fields.any (fun f => f.name == col) = false) :
-    processM sch s b g script (some (tb, col)) = (s, some .itsdbError)
-    ∧ processCalls sch s (some (tb, col)) = .error .itsdbError :=
+    ∀ src : Option Suite, processM sch s b g script (some (tb, col)) src = (s, some .itsdbError)
+    ∧ processCalls sch s (some (tb, col)) src = .error .itsdbError :=
   L.processM_bad_selector sch s b g script tb col hbad
 
 end Verif.C10
